@@ -2,18 +2,91 @@
 mod b64;
 mod child;
 mod exec;
+mod framework;
 mod interpose;
+mod minimise;
+mod oracle;
+mod scenarios;
+mod specgen;
+mod trials;
 
 use exec::{exec, ExecSpec, InputMode, WorkDir};
+use framework::Tier;
+
+fn usage() -> ! {
+    eprintln!(
+        "usage:\n  fpsim check <property> quick|thorough\n  fpsim replay <file>\n  fpsim list\n  \
+         fpsim smoke <file> [pipe] -- <fastpasta args with @IN@>\n  (internal) fpsim shard <property> <tier> <seed> <i> <n> <out>"
+    );
+    std::process::exit(2);
+}
+
+fn tier_of(s: &str) -> Tier {
+    match s {
+        "quick" => Tier::Quick,
+        "thorough" => Tier::Thorough,
+        _ => usage(),
+    }
+}
 
 fn main() {
     let args: Vec<String> = std::env::args().collect();
     match args.get(1).map(|s| s.as_str()) {
         Some("smoke") => smoke(&args[2..]),
-        _ => {
-            eprintln!("usage: fpsim smoke <file|-> [pipe] -- <fastpasta args with @IN@>");
-            std::process::exit(2);
+        Some("list") => {
+            for s in scenarios::registry() {
+                println!("{}", s.property());
+            }
         }
+        Some("check") if args.len() >= 4 => {
+            let sc = match scenarios::find(&args[2]) {
+                Some(s) => s,
+                None => {
+                    eprintln!("fpsim: no scenario for property {}", args[2]);
+                    std::process::exit(2);
+                }
+            };
+            let code = framework::run_check(sc.as_ref(), tier_of(&args[3]));
+            std::process::exit(code);
+        }
+        Some("shard") if args.len() >= 8 => {
+            let sc = scenarios::find(&args[2]).unwrap_or_else(|| usage());
+            let tier = tier_of(&args[3]);
+            let seed: u64 = args[4].parse().unwrap_or_else(|_| usage());
+            let i: u64 = args[5].parse().unwrap_or_else(|_| usage());
+            let n: u64 = args[6].parse().unwrap_or_else(|_| usage());
+            framework::run_shard(sc.as_ref(), tier, seed, i, n, std::path::Path::new(&args[7]));
+        }
+        Some("trial") if args.len() >= 4 => {
+            // debugging aid: run one case of a scenario verbosely
+            let sc = scenarios::find(&args[2]).unwrap_or_else(|| usage());
+            let case: u64 = args[3].parse().unwrap_or_else(|_| usage());
+            let tier = args.get(4).map(|s| tier_of(s)).unwrap_or(Tier::Quick);
+            let seed = fpsim_rt::rng::mix(&[
+                framework::base_seed(),
+                fpsim_rt::rng::hash_bytes(sc.property().as_bytes()),
+                case,
+            ]);
+            let mut trial = sc.make(seed, case, tier);
+            println!("{}", serde_json::to_string_pretty(&trial.summary()).unwrap());
+            let wd = WorkDir::new("trial");
+            let mut ex = framework::Executor::new(&wd);
+            let out = trial.run(&mut ex);
+            println!("fail={:?}\nnontrivial={} labels={:?}", out.fail, out.nontrivial, out.labels);
+            if let Ok(dir) = std::env::var("FPSIM_DUMP") {
+                for (i, sp) in trial.specs_mut().iter().enumerate() {
+                    std::fs::write(format!("{dir}/trial-{i}.raw"), &sp.input).unwrap();
+                    let r = exec(sp, &wd);
+                    println!("--- exec {i}: {} -> status {} end {:?} disorder {:?}", sp.cmdline(), r.status, r.end, r.disorder());
+                    println!("{}", r.stderr_str());
+                    println!("{}", r.stdout_str());
+                }
+            }
+        }
+        Some("replay") if args.len() >= 3 => {
+            std::process::exit(framework::replay(std::path::Path::new(&args[2])));
+        }
+        _ => usage(),
     }
 }
 
